@@ -80,8 +80,9 @@ finally:
 
 dst = os.path.join("/verif/seeded", name)
 os.makedirs(dst, exist_ok=True)
-shutil.copy(os.path.join(src, "patch.diff"), dst)
-shutil.copy(os.path.join(src, "demo.py"), dst)
+if os.path.abspath(src) != os.path.abspath(dst):
+    shutil.copy(os.path.join(src, "patch.diff"), dst)
+    shutil.copy(os.path.join(src, "demo.py"), dst)
 meta = {}
 try:
     meta = json.load(open(os.path.join(src, "meta.json")))
